@@ -114,7 +114,7 @@ fn small_cfg(rng: &mut Rng, sorenson: bool, max: usize) -> PicCfg {
         (Flavour::StdFixed, f.1, f.2)
     } else {
         let (w, h) = gen_size(rng, max);
-        (Flavour::StdPlus, ((w + 3) / 4 * 4).max(4), ((h + 3) / 4 * 4).max(4))
+        (Flavour::StdPlus, ((w + 3) / 4 * 4).clamp(4, 2048), ((h + 3) / 4 * 4).clamp(4, 1152))
     };
     gen_cfg(rng, flavour, w, h)
 }
